@@ -28,10 +28,14 @@ def key(op, impl, M, S):
     if "Refine(CustomParams)" in how:
         # the directed family: CustomParams handed to ZodIntegerTyped.Refine
         return "int-refine-customparams:" + reason
-    if "Slice[" in how or "Object{" in how:
+    # a pointer to a string somewhere in the pipeline (input or a StringPtr() stage) first: that is where the
+    # pointer pass of validatePointer is observable for strings; container stages otherwise
+    if "*" in body.split(" | ")[-1] or "StringPtr" in how:
+        where = "ptr"
+    elif "Slice[" in how or "Object{" in how:
         where = "container"
     else:
-        where = "ptr" if ("*" in body.split(" | ")[-1] or "StringPtr" in how) else "val"
+        where = "val"
     modelled = "first-pass" if impl == M else "unmodelled"
     return "%s:%s:%s" % (reason, where, modelled)
 
